@@ -75,7 +75,15 @@ def eas_run(N):
             a = z3.Real(f"altDec{i}")
             in_range = z3.And(a >= 0, a <= 20)
             claims[f"[{i}] simulated iff decay altitude in [0,20] km"] = z3.BoolVal(i in ids) == in_range
-            pe, th = numPEs[i].term(), SV.of(thEff[i]).term()
+            pe = numPEs[i].term()
+            if thEff is None:
+                # the function returned before computing the effective angle (no such path on the pinned tree):
+                # only what is observable at the return value can be stated
+                claims[f"[{i}] returned cosine is cos(radians(1.5 deg)) when nothing was simulated"] = z3.BoolVal(
+                    i not in ids and SV.of(cosEff[i]).term().eq(SV.of(NP.cos(NP.radians(SV(c=Fr(3, 2))))).term()))
+                claims[f"[{i}] exactly zero photo-electrons when nothing was simulated"] = pe == 0
+                continue
+            th = SV.of(thEff[i]).term()
             claims[f"[{i}] returned cosine == cos(radians(effective angle))"] = z3.BoolVal(cosEff[i].term().eq(SV.of(NP.cos(NP.radians(thEff[i]))).term()))
             if i in ids:
                 rho, t0 = z3.Real(f"rho{i}"), z3.Real(f"theta{i}")
@@ -93,13 +101,13 @@ def eas_run(N):
             else:
                 claims[f"[{i}] out of range: exactly zero photo-electrons"] = pe == 0
                 claims[f"[{i}] out of range: default 1.5 deg angle"] = th == core.rv(Fr(3, 2))
-        if N >= 2 and 0 in ids and 1 in ids:
+        if N >= 2 and 0 in ids and 1 in ids and thEff is not None:
             claims["effective angle non-decreasing in signal (same intrinsic angle)"] = z3.Implies(
                 z3.And(z3.Real("theta0") == z3.Real("theta1"), numPEs[0].term() <= numPEs[1].term()), SV.of(thEff[0]).term() <= SV.of(thEff[1]).term())
         inputs = {"area": area, "qe": qe, "thr": thr}
         for i in idx:
             inputs.update({f"altDec{i}": z3.Real(f"altDec{i}"), f"rho{i}": z3.Real(f"rho{i}"), f"theta{i}": z3.Real(f"theta{i}")})
-        return harness.Out(claims=claims, inputs=inputs, info={"in_range": ids}, observe={"numPEs": numPEs, "thetaChEff": thEff})
+        return harness.Out(claims=claims, inputs=inputs, info={"in_range": ids}, observe={"numPEs": numPEs, "thetaChEff": thEff} if thEff is not None else {"numPEs": numPEs})
 
     return run
 
